@@ -53,10 +53,13 @@ def shards(tier):
 
 
 _fixture = {}
+_fixtures = {}
 
 
-def build_fixture(scratch):
-    '''-> (world, base dir).  Built once per process.'''
+def build_fixture(scratch, meta=0):
+    '''-> (world, base dir).  Built once per process and per meta-file layout.'''
+    global _fixture
+    _fixture = _fixtures.setdefault(meta, {})
     if 'world' in _fixture:
         return _fixture['world'], _fixture['base']
     world = W.World(activation=0, light=True)
@@ -75,7 +78,7 @@ def build_fixture(scratch):
     world.extend(descs)
     assert j == total
     coin = make_coin(0, 8)
-    base = fresh_dir(scratch, 'c17base')
+    base = fresh_dir(scratch, f'c17base{meta}')
 
     async def main(loop):
         node = Node(base, world, coin, reorg_limit=5)
@@ -119,23 +122,36 @@ TRIPLE = st.tuples(
     st.sampled_from([0, 1, 2, 2015, 2016, 2017, 2100, 5000, 10 ** 12]),
     st.sampled_from([0, 0, N_BLOCKS, N_BLOCKS - 1, 2100, 2016, N_BLOCKS + 1])).map(list)
 
-CASE = st.builds(lambda ms, triples, scripts, push: {'max_send': ms, 'triples': triples,
-                                                    'scripts': scripts, 'push': push},
+CASE = st.builds(lambda ms, triples, scripts, push, meta: {'max_send': ms, 'triples': triples,
+                                                          'scripts': scripts, 'push': push,
+                                                          'meta': meta},
                  st.integers(0, len(MAX_SENDS) - 1),
                  st.lists(TRIPLE, min_size=2, max_size=8),
                  st.lists(st.integers(0, len(BIG) - 1), min_size=2, max_size=6, unique=True),
-                 st.booleans())
+                 st.booleans(),
+                 # physical meta files of 2.5 headers / tx counts / 3.1 tx hashes (node.META_SIZES):
+                 # every multi-header read straddles files, as one across height 200,000 does
+                 st.sampled_from([0, 0, 1]))
 
 
 def run_case(scratch, case):
-    world, base = build_fixture(scratch)
+    from pbt import node as node_mod
+    node_mod.META_OVERRIDE = case.get('meta') or 0
+    try:
+        return _run_case(scratch, case)
+    finally:
+        node_mod.META_OVERRIDE = 0
+
+
+def _run_case(scratch, case):
+    world, base = build_fixture(scratch, case.get('meta') or 0)
     coin = _fixture['coin']
     chain = _fixture['chain']
     hist = _fixture['hist']
     tip = len(chain) - 1
     max_send = MAX_SENDS[case['max_send']]
     limit = max(350000, max_send) // 99
-    info = {'nt': 0, 'classes': set()}
+    info = {'nt': 0, 'classes': {'small_meta_files'} if case.get('meta') else set()}
     failure = []
     work = os.path.join(scratch, 'c17work')
     os.chdir(VERIF_DIR)
